@@ -116,7 +116,20 @@ def run(ctx):
                         conv.append({"s": s_, "kw": kw, "settings": {"RELATIVE_BASE": BASE}, "api": "ddp", "probe": False, "pre": pre_,
                                      "f": f, "sep": sep, "locorder": locs[r2], "loc": r2})
         conv_res = core.run_fresh(ctx, "harness.lib", "call_parse", conv)
+    # ---- try_previous_locales=True: what one parser remembers belongs to that parser
+    tpl, tpl_res = [], []
+    if not ctx.replay:
+        pool = [L for L in order if W["langs"][L]["months"][0]]
+        for _ in range(150 if ctx.quick() else 3000):
+            A, B = rng.sample(pool, 2)
+            sa = ["1 %s 2020" % W["langs"][A]["months"][0], "01/02/2020", "5 %s" % W["langs"][A]["months"][2]]
+            via = rng.choice(["languages", "locales"])
+            tpl.append({"a": {"kw": {"languages": [A]}, "s": sa}, "b": {"kw": {via: [B]}, "s": rng.choice(["01/02/2020", "03-04-2011", "10.11.12", "1 %s 2020" % W["langs"][B]["months"][0]])},
+                        "settings": {"RELATIVE_BASE": BASE}, "selected": [B]})
+        tpl_res = core.run_cases(ctx, "harness.lib", "call_c13_tpl", tpl, chunk=10)
     records = []
+    for j, (c, r) in enumerate(zip(tpl, tpl_res)):
+        records.append({"kind": "tpl", "tid": 2 * 10 ** 6 + j, "selected": c["selected"], "out": r["out"], "single": r["single"], "exc": r["exc"]})
     for j, (c, r) in enumerate(zip(conv, conv_res)):
         records.append({"kind": "conv", "tid": 10 ** 6 + j, "f": c["f"], "sep": c["sep"], "locorder": c["locorder"], "out": r["out"], "exc": r["exc"]})
     for i, (c, r) in enumerate(zip(cases, results)):
@@ -125,6 +138,11 @@ def run(ctx):
     tuples, gen = core.validate_traces(ctx, "T_C13", "SPECIFICATION TSpec\nPOSTCONDITION Consumed\nCHECK_DEADLOCK FALSE\n", records)
     for t in tuples["REJECT"]:
         _, tid, kind, verdict, exp = t[:5]
+        if tid >= 2 * 10 ** 6:
+            c, r = tpl[tid - 2 * 10 ** 6], tpl_res[tid - 2 * 10 ** 6]
+            ctx.violation({"history": "pa = DateDataParser(languages=%r, try_previous_locales=True); pa.get_date_data(..) x%d; DateDataParser(%s, try_previous_locales=True).get_date_data(%r)" % (
+                c["a"]["kw"]["languages"], len(c["a"]["s"]), ", ".join("%s=%r" % kv for kv in c["b"]["kw"].items()), c["b"]["s"])}, verdict, expected=exp, observed=r["out"])
+            continue
         if tid >= 10 ** 6:
             c, r = conv[tid - 10 ** 6], conv_res[tid - 10 ** 6]
             ctx.violation({"fresh_process_history": [[p_["s"], p_["kw"]] for p_ in c["pre"]], "then": "DateDataParser(%s).get_date_data(%r)" % (
@@ -143,8 +161,10 @@ def run(ctx):
     # Tokenize.tla / Translate.tla are bound to that code here (model laws, exhaustive small domain, real languages).
     from .. import tokcheck
     tok = tokcheck.run(ctx, W) if not ctx.replay else {}
+    from .. import loadercheck
+    ldr = loadercheck.run(ctx, LX, W) if not ctx.replay else {}
     cov = {
-        "tokenize": tok, "regional_convention_cases_in_fresh_processes": len(conv),
+        "tokenize": tok, "regional_convention_cases_in_fresh_processes": len(conv), "try_previous_locales_pairs": len(tpl), "loader": ldr,
         "states": mc.distinct, "transitions": mc.generated, "traces_validated_against_impl": len(cases),
         "evaluations": sum(len(c["order"]) + 6 for c in cases),
         "distinct_nontrivial": len({(c["s"], tuple(c["langs"]), c["given"]) for c, r in zip(cases, results) if r["multi"]["res"] or r["auto"]["res"]}),
